@@ -786,6 +786,7 @@ _dispatch_source_invoke2(dispatch_source_t ds, dispatch_invoke_context_t dic,
 	}
 
 	if (_dispatch_unote_needs_delete(dr)) {
+		DISPATCH_VERIF_PROBE(15);
 		_dispatch_source_refs_unregister(ds, DUU_DELETE_ACK | DUU_MUST_SUCCEED);
 	}
 
